@@ -36,6 +36,7 @@ class Path:
         self.sinks = []         # (name, [Rat], loop tag tuple, node)
         self.returned = None
         self.stores = []        # (target text, Rat, loop tags, node)
+        self.value_tests = []   # (normal form of a value compared with 0, path knows it is >= 0)
 
     def key(self):
         return dict(self.decisions)
@@ -200,6 +201,17 @@ class PathInterp:
             self._oracle.append(True)
         self._k += 1
         self._path.decisions.append((key, b))
+        # sign tests: remember the tested value in normal form and whether this path knows it to be non-negative
+        if isinstance(t, ast.Compare) and len(t.ops) == 1:
+            try:
+                rhs = ev.ev(t.comparators[0])
+                if rhs.is_const() and rhs.const_value() == 0:
+                    lhs = ev.ev(t.left).key()
+                    op = type(t.ops[0])
+                    nonneg = (op in (ast.Lt,) and not b) or (op in (ast.GtE, ast.Gt) and b)
+                    self._path.value_tests.append((lhs, nonneg))
+            except Exception:
+                pass
         return b
 
     def _cond_key(self, t, ev):
